@@ -18,7 +18,7 @@ def decSusp (j : J) : M (Event → Nat) := do
   return fun e => match e with
     | .exec m _ => ((body.find? (fun p => p.1 == m)).map (·.2)).getD 0
     | .mwEnter 0 _ _ => mw0
-    | .handler _ _ _ => h
+    | .handler none _ _ => h          -- only the generic handlers suspend in the harness
     | _ => 0
 
 def suiteAsync (c : J) : M J := do
